@@ -551,7 +551,9 @@ func (f *Frame) applyContract(st *State, in ssa.Instruction, ct *Contract, sig *
 			}
 			allowed = Or(alts...)
 		}
-		vc.oblige(st, "panic", anchor, Implies(cond, allowed), nil, "callee "+name+" may panic here", posOf(in))
+		if !vc.recovers {
+			vc.oblige(st, "panic", anchor, Implies(cond, allowed), nil, "callee "+name+" may panic here", posOf(in))
+		}
 		if ct.PanicsIff {
 			vc.assumeIn(st, Not(cond))
 		}
